@@ -5,8 +5,9 @@ EXTENDS MCResCommon
 TypePts == {Pt(k, "wire", 0, FALSE, {}, r) : k \in {"iface", "siface", "ptr", "sptr"}, r \in BOOLEAN}
            \cup {PtF(k, f, r) : k \in {"iface", "siface"}, f \in {"Mark", "Tick"}, r \in BOOLEAN}
            \cup {PtK(k, rt, TRUE) : k \in {"iface", "siface"}, rt \in {{}, {"A"}, {"A", "B"}, {"*"}}}
+           \cup {Pt(k, "wire", 0, FALSE, {}, r) : k \in {"aiface", "aptr"}, r \in BOOLEAN} \cup {PtF("aiface", "Mark", FALSE)}   \* array-typed points
 CorePts == {Pt(k, "wire", 0, FALSE, {}, TRUE) : k \in {"iface", "siface", "ptr", "sptr"}} \cup {PtF("siface", f, TRUE) : f \in {"Mark", "Tick"}}
 PtLists == {<<a>> : a \in TypePts} \cup {<<a, b>> : a \in TypePts, b \in CorePts}
 \* enumerated by nested quantification: building the set of scenario records first is far slower
-MCInit == \E p \in Pops, l \in PtLists : InitWith([prov |-> p, pts |-> l])
+MCInit == \E p \in Pops, l \in PtLists : InitWith([prov |-> p, pts |-> l, preset |-> FALSE])
 =============================================================================
